@@ -129,8 +129,9 @@ type Finding struct {
 }
 
 // known-findings.txt lines:
-//   finding: property=C06 obligation=<name> what=<free text to end of line>
-//   fixed: property=C12 <commit> <what failed>
+//
+//	finding: property=C06 obligation=<name> what=<free text to end of line>
+//	fixed: property=C12 <commit> <what failed>
 func loadFindings() []Finding {
 	var out []Finding
 	for _, l := range readLines(filepath.Join(verifDir, "known-findings.txt")) {
